@@ -98,16 +98,25 @@ namespace TAO_PEGTL_NAMESPACE
 
          void bump( const std::size_t in_count = 1 ) noexcept
          {
+#if defined( TAO_PEGTL_VERIF )
+            TAO_PEGTL_VERIF_BUMP( m_current.data, in_count, m_end );
+#endif
             internal::bump( m_current, in_count, Eol::ch );
          }
 
          void bump_in_this_line( const std::size_t in_count = 1 ) noexcept
          {
+#if defined( TAO_PEGTL_VERIF )
+            TAO_PEGTL_VERIF_BUMP( m_current.data, in_count, m_end );
+#endif
             internal::bump_in_this_line( m_current, in_count );
          }
 
          void bump_to_next_line( const std::size_t in_count = 1 ) noexcept
          {
+#if defined( TAO_PEGTL_VERIF )
+            TAO_PEGTL_VERIF_BUMP( m_current.data, in_count, m_end );
+#endif
             internal::bump_to_next_line( m_current, in_count );
          }
 
@@ -190,16 +199,25 @@ namespace TAO_PEGTL_NAMESPACE
 
          void bump( const std::size_t in_count = 1 ) noexcept
          {
+#if defined( TAO_PEGTL_VERIF )
+            TAO_PEGTL_VERIF_BUMP( m_current, in_count, m_end );
+#endif
             m_current += in_count;
          }
 
          void bump_in_this_line( const std::size_t in_count = 1 ) noexcept
          {
+#if defined( TAO_PEGTL_VERIF )
+            TAO_PEGTL_VERIF_BUMP( m_current, in_count, m_end );
+#endif
             m_current += in_count;
          }
 
          void bump_to_next_line( const std::size_t in_count = 1 ) noexcept
          {
+#if defined( TAO_PEGTL_VERIF )
+            TAO_PEGTL_VERIF_BUMP( m_current, in_count, m_end );
+#endif
             m_current += in_count;
          }
 
@@ -297,6 +315,9 @@ namespace TAO_PEGTL_NAMESPACE
 
       [[nodiscard]] char peek_char( const std::size_t offset = 0 ) const noexcept
       {
+#if defined( TAO_PEGTL_VERIF )
+         TAO_PEGTL_VERIF_PEEK( this->current(), offset, this->end() );
+#endif
          return this->current()[ offset ];
       }
 
